@@ -427,3 +427,19 @@ def const_int(e: ast.expr) -> Optional[int]:
         v = const_int(e.operand)
         return -v if v is not None else None
     return None
+
+
+def staged(*thunks):
+    """Run independent rule groups one after the other.  An AnalysisError
+    in one group does not keep the later groups from recording what they
+    find; the first error is raised again at the end, so the run still
+    fails closed unless a definite violation was established (cli policy)."""
+    first = None
+    for t in thunks:
+        try:
+            t()
+        except AnalysisError as e:
+            if first is None:
+                first = e
+    if first is not None:
+        raise first
